@@ -10,8 +10,8 @@ import time
 
 from .emit import VERIF
 
-EVIDENCE_DIR = os.path.join(VERIF, "evidence")
-REPLAY_DIR = os.path.join(VERIF, "replay")
+EVIDENCE_DIR = os.environ.get("VERIF_EVIDENCE_DIR") or os.path.join(VERIF, "evidence")
+REPLAY_DIR = os.environ.get("VERIF_REPLAY_DIR") or os.path.join(VERIF, "replay")
 KNOWN_FILE = os.path.join(VERIF, "KNOWN_FINDINGS.txt")
 
 
